@@ -8,7 +8,8 @@
    (StartInversionExact: inverting the start Julian date gives the start instant).
 2. The as-coded start inversion (InvertStartBySecTruncation) must break SiteFixed in TLC
    (non-vacuity of the specification).
-3. impl -> spec: REAL scenarios with ground sensors configured in latitude / longitude /
+3. impl -> spec: REAL scenarios (and, for elapsed times of days and whole-day steps, ground agents
+   built like ScenarioBuilder builds them and stepped directly through step plans printed by TLC) with ground sensors configured in latitude / longitude /
    altitude (public configuration keys), start instants sweeping the second of the minute and
    crossing midnights, steps 2-900 s.  After every real step the driver projects each ground
    agent to integers: displacement (mm) between the configured Earth-fixed position
@@ -64,12 +65,51 @@ def _init_worker():
     from .. import scenario_util  # noqa: F401
 
 
+def _site_record(ag, site, agent_id, start):
+    """What the driver knows about one configured site + the agent built for it."""
+    import numpy as np
+    from resonaate.physics.transforms.methods import lla2ecef
+    lat, lon, alt = site
+    lla = np.array([math.radians(lat), math.radians(lon), alt])
+    x_cfg = lla2ecef(lla)                       # the configured Earth-fixed position (projection)
+    dyn_start = getattr(ag.dynamics, "datetime_start", None)
+    return {"ag": ag, "lla": lla, "x": x_cfg, "rho": math.hypot(x_cfg[0], x_cfg[1]), "dyn_start": dyn_start,
+            "rec": {"site": [lat, lon, alt], "agent_id": agent_id,
+                    # (not observable if the dynamics object has no such attribute)
+                    "invMs": cal.ms_between(dyn_start, start) if dyn_start else 0, "st": []}}
+
+
+def _observe(a, start, auth, clock_ms):
+    """Integer projection of one ground agent at the authoritative epoch `auth` of the current step."""
+    import numpy as np
+    from resonaate.physics.transforms.methods import eci2ecef
+    ag = a["ag"]
+    eci = np.asarray(ag.eci_state, dtype=float)
+    ecef = eci2ecef(eci, auth)
+    own = np.asarray(ag.ecef_state, dtype=float)
+    lla = np.asarray(ag.lla_state, dtype=float)
+    dlon = (lla[1] - a["lla"][1] + math.pi) % (2 * math.pi) - math.pi
+    lla_err_km = max(abs(lla[0] - a["lla"][0]) * R_EARTH,
+                     abs(dlon) * R_EARTH * math.cos(a["lla"][0]), abs(lla[2] - a["lla"][2]))
+    site_epoch = (a["dyn_start"] + timedelta(seconds=float(ag.time))) if a["dyn_start"] else None
+    return {"clockMs": clock_ms,
+            "epochMs": cal.ms_between(ag.datetime_epoch, start),
+            "jd": float(ag.julian_date_epoch),
+            "siteEpochMs": cal.ms_between(site_epoch, start) if site_epoch else clock_ms,
+            "dispMm": cal.cap(float(np.linalg.norm(ecef[:3] - a["x"][:3])) * 1e6),
+            "velErr": cal.cap(float(np.linalg.norm(ecef[3:])) * 1e9),
+            "speedErr": cal.cap(abs(float(np.linalg.norm(eci[3:])) - OMEGA * a["rho"]) * 1e9),
+            "ownDispMm": cal.cap(float(np.linalg.norm(own[:3] - a["x"][:3])) * 1e6),
+            "llaErrMm": cal.cap(lla_err_km * 1e6),
+            "dbDispMm": -1}
+
+
 def _run_sites(task):
     import numpy as np
     from .. import scenario_util as su
     from resonaate.data.ephemeris import TruthEphemeris
     from resonaate.data.epoch import Epoch
-    from resonaate.physics.transforms.methods import eci2ecef, lla2ecef
+    from resonaate.physics.transforms.methods import eci2ecef
     from sqlalchemy.orm import Query
     start = su.parse_iso(task["start"])
     dt, nsteps, sites = task["dt"], task["steps"], task["sites"]
@@ -83,17 +123,7 @@ def _run_sites(task):
                 raise RuntimeError("test configuration sensor is not a ground facility")
             sc["state"] = {"type": "lla", "latitude": lat, "longitude": lon, "altitude": alt}
         app = su.build(cfg)
-        agents = []
-        for sc, (lat, lon, alt) in zip(sensors, sites):
-            ag = app.sensor_agents[sc["id"]]
-            lla = np.array([math.radians(lat), math.radians(lon), alt])
-            x_cfg = lla2ecef(lla)                       # the configured Earth-fixed position (projection)
-            rho = math.hypot(x_cfg[0], x_cfg[1])
-            dyn_start = getattr(ag.dynamics, "datetime_start", None)
-            agents.append({"ag": ag, "lla": lla, "x": x_cfg, "rho": rho, "dyn_start": dyn_start,
-                           "rec": {"site": [lat, lon, alt], "agent_id": sc["id"],
-                                   # (not observable if the dynamics object has no such attribute)
-                                   "invMs": cal.ms_between(dyn_start, start) if dyn_start else 0, "st": []}})
+        agents = [_site_record(app.sensor_agents[sc["id"]], site, sc["id"], start) for sc, site in zip(sensors, sites)]
         k = [0]
         real_step = app.stepForward
 
@@ -105,26 +135,7 @@ def _run_sites(task):
             auth = start + timedelta(seconds=k[0] * dt)          # authoritative epoch of this step
             clock_ms = cal.ms_between(app.clock.datetime_epoch, start)
             for a in agents:
-                ag = a["ag"]
-                eci = np.asarray(ag.eci_state, dtype=float)
-                ecef = eci2ecef(eci, auth)
-                own = np.asarray(ag.ecef_state, dtype=float)
-                lla = np.asarray(ag.lla_state, dtype=float)
-                dlon = (lla[1] - a["lla"][1] + math.pi) % (2 * math.pi) - math.pi
-                lla_err_km = max(abs(lla[0] - a["lla"][0]) * R_EARTH,
-                                 abs(dlon) * R_EARTH * math.cos(a["lla"][0]), abs(lla[2] - a["lla"][2]))
-                site_epoch = (a["dyn_start"] + timedelta(seconds=float(ag.time))) if a["dyn_start"] else None
-                a["rec"]["st"].append({
-                    "clockMs": clock_ms,
-                    "epochMs": cal.ms_between(ag.datetime_epoch, start),
-                    "jd": float(ag.julian_date_epoch),
-                    "siteEpochMs": cal.ms_between(site_epoch, start) if site_epoch else 1000 * k[0] * dt,
-                    "dispMm": cal.cap(float(np.linalg.norm(ecef[:3] - a["x"][:3])) * 1e6),
-                    "velErr": cal.cap(float(np.linalg.norm(ecef[3:])) * 1e9),
-                    "speedErr": cal.cap(abs(float(np.linalg.norm(eci[3:])) - OMEGA * a["rho"]) * 1e9),
-                    "ownDispMm": cal.cap(float(np.linalg.norm(own[:3] - a["x"][:3])) * 1e6),
-                    "llaErrMm": cal.cap(lla_err_km * 1e6),
-                    "dbDispMm": -1})
+                a["rec"]["st"].append(_observe(a, start, auth, clock_ms))
 
         app.stepForward = traced_step                  # wrapper on the instance, no source hook
         su.run_for(app, nsteps * dt)                   # public Scenario.propagateTo
@@ -150,6 +161,65 @@ def _run_sites(task):
         out["crash"] = f"{type(ex).__name__}: {ex}"
         out["tb"] = traceback.format_exc()[-1500:]
     return out
+
+
+def _run_plans(task):
+    """Ground agents built the way ScenarioBuilder builds them (public configuration ->
+    ScenarioClock.fromConfig, dynamicsFactory, SensingAgent.fromConfig) and stepped directly the way
+    the propagation job does (dynamics.propagate(t, t + d, state); agent.time = t + d;
+    agent.eci_state = result) through every step plan of the task: no Scenario, no database rows."""
+    from .. import scenario_util as su
+    from resonaate.agents.sensing_agent import SensingAgent
+    from resonaate.dynamics import dynamicsFactory
+    from resonaate.physics.time.stardate import ScenarioTime
+    from resonaate.scenario.clock import ScenarioClock
+    from resonaate.scenario.config import ScenarioConfig
+    start = su.parse_iso(task["start"])
+    out = {"id": task["id"], "crash": None, "agents": []}
+    try:
+        cfg = su.base_config(start=start, step=60, n_steps=1, n_targets=1, n_sensors=len(task["sites"]),
+                             truth_only=True, model="two_body")
+        sensors = cfg["engines"][0]["sensors"]
+        for sc, (lat, lon, alt) in zip(sensors, task["sites"]):
+            if sc["platform"]["type"] != "ground_facility":
+                raise RuntimeError("test configuration sensor is not a ground facility")
+            sc["state"] = {"type": "lla", "latitude": lat, "longitude": lon, "altitude": alt}
+        config = ScenarioConfig(**cfg)
+        su.sched.reset()
+        su.reset_db()
+        clock = ScenarioClock.fromConfig(config.time)
+        sen_cfgs = {s.id: s for s in config.engines[0].sensors}
+        for plan in task["plans"]:
+            agents = []
+            for sc, site in zip(sensors, task["sites"]):       # fresh agents for every plan
+                sen_cfg = sen_cfgs[sc["id"]]
+                dynamics = dynamicsFactory(sen_cfg, config.propagation, config.geopotential, config.perturbations, clock)
+                ag = SensingAgent.fromConfig(sen_cfg=sen_cfg, clock=clock, dynamics=dynamics, prop_cfg=config.propagation)
+                a = _site_record(ag, site, sc["id"], start)
+                a["rec"]["plan"] = list(plan)
+                agents.append(a)
+            elapsed = 0
+            for d in plan:
+                elapsed += d
+                auth = start + timedelta(seconds=elapsed)           # authoritative epoch after this step
+                for a in agents:                                     # as PropagateRegistration does
+                    ag = a["ag"]
+                    t1 = ag.time + ScenarioTime(d)
+                    new = ag.dynamics.propagate(ag.time, t1, ag.eci_state, station_keeping=ag.station_keeping,
+                                                scheduled_events=ag.propagate_event_queue)
+                    ag.time = t1
+                    ag.eci_state = new
+                    a["rec"]["st"].append(_observe(a, start, auth, 1000 * elapsed))
+            out["agents"] += [a["rec"] for a in agents]
+    except Exception as ex:  # noqa: BLE001
+        import traceback
+        out["crash"] = f"{type(ex).__name__}: {ex}"
+        out["tb"] = traceback.format_exc()[-1500:]
+    return out
+
+
+def _dispatch(task):
+    return _run_plans(task) if "plans" in task else _run_sites(task)
 
 
 # ======================================================================================
@@ -231,15 +301,55 @@ def _tasks(ctx: Ctx, site_cfgs, mids, rng):
     return tasks
 
 
+def _plan_tasks(ctx: Ctx, plan_cfgs, mids, first_id):
+    """Cross the step plans TLC printed (per start second, longitude and Earth-angle class) with real
+    start instants and sites: one task per start second."""
+    by_sec: dict = {}
+    for c in plan_cfgs:
+        by_sec.setdefault(c["startSec"], {}).setdefault(tuple(c["plan"]), []).append(c)
+    kinds = ("month", "day", "leapday", "year")
+    tasks = []
+    for sec in sorted(by_sec):
+        plans = sorted(by_sec[sec])
+        late = [p for p in plans if len(p) == 4 and p[0] >= 10800 and max(p[1:]) <= 10]
+        other = [p for p in plans if p not in late]
+        if ctx.quick:       # a rotating third of the plans per start second (every plan ~ 20 start seconds)
+            pick = [late[(sec * 4 + j * 5) % len(late)] for j in range(4)] + \
+                   [other[(sec * 3 + j * 2) % len(other)] for j in range(3)]
+            pick = sorted(set(pick))
+        else:
+            pick = plans
+        classes = by_sec[sec][pick[0]]
+        thetas = sorted({c["theta0"] for c in classes})
+        ti = sec % len(thetas)
+        lons = sorted({c["lon"] for c in classes if c["theta0"] == thetas[ti]})
+        lons = lons[sec % len(lons):] + lons[:sec % len(lons)]
+        sites = [(LATS[(sec + q * 3) % len(LATS)], round(_lon_deg(lon), 6), ALTS[(sec + q) % len(ALTS)])
+                 for q, lon in enumerate(lons[:2])]
+        mid = mids[kinds[sec % 4]][(sec * 11) % len(mids[kinds[sec % 4]])]
+        if ti == 0:          # mid-day start
+            t0 = mid - timedelta(days=2) + timedelta(hours=2 + sec % 19, minutes=(sec * 7) % 60, seconds=sec)
+        elif ti == 1:        # the first step crosses a midnight
+            t0 = mid - timedelta(minutes=1) + timedelta(seconds=sec)
+        else:                # small late steps run up to / across a midnight 2.5 days later (216000 s)
+            t0 = mid - timedelta(seconds=216000) - timedelta(minutes=1) + timedelta(seconds=sec)
+        tasks.append({"id": first_id + len(tasks), "start": cal.fmt(t0), "sites": sites, "plans": [list(p) for p in pick],
+                      "theta0": thetas[ti]})
+    return tasks
+
+
 def _project(task, rec, idx):
     """Raw agent record -> integer trace for TraceGroundSite.tla."""
     start = datetime.fromisoformat(task["start"])
-    st = []
-    for k, s in enumerate(rec["st"], start=1):
+    plan = rec.get("plan") or [task["dt"]] * len(rec["st"])
+    st, elapsed = [], 0
+    for d, s in zip(plan, rec["st"]):
+        elapsed += d
         s = dict(s)
-        s["jdOk"] = idx.jd_ok(s.pop("jd"), start + timedelta(seconds=k * task["dt"]))
+        s["jdOk"] = idx.jd_ok(s.pop("jd"), start + timedelta(seconds=elapsed))
         st.append(s)
-    return {"startSec": start.second, "dt": task["dt"], "invMs": rec["invMs"], "st": st}
+    return {"startSec": start.second, "dt": task.get("dt", 1), "plan": plan[:len(st)], "db": 0 if "plan" in rec else 1,
+            "invMs": rec["invMs"], "st": st}
 
 
 def _validate(ctx: Ctx, items, idx):
@@ -283,13 +393,15 @@ def _validate(ctx: Ctx, items, idx):
         task, rec = items[tid - 1]
         tr = traces[tid - 1]
         worst = max((s["dispMm"] for s in tr["st"]), default=0)
+        how = f"stepped directly with plan {rec['plan']} s" if "plan" in rec else f"scenario step {task['dt']} s"
+        mode = "agent" if "plan" in rec else "scenario"
         for inv in sorted(invs):
             ctx.violation(SIG_OF_INV.get(inv, inv),
-                          f"ground agent {rec['agent_id']} at lat/lon/alt {rec['site']}, start {task['start']}, step "
-                          f"{task['dt']} s: {inv} violated (start inversion error {tr['invMs']} ms, largest displacement "
+                          f"ground agent {rec['agent_id']} at lat/lon/alt {rec['site']}, start {task['start']}, {how}: "
+                          f"{inv} violated (start inversion error {tr['invMs']} ms, largest displacement "
                           f"{worst / 1000:.1f} m over {len(tr['st'])} steps)",
-                          {"start": task["start"], "dt": task["dt"], "steps": task["steps"], "sites": [rec["site"]],
-                           "trace": tr})
+                          {"mode": mode, "start": task["start"], "dt": task.get("dt"), "steps": task.get("steps"),
+                           "plan": rec.get("plan"), "sites": [rec["site"]], "trace": tr})
     ctx.traces_validated += len(traces)
     return accepted, rejected, traces
 
@@ -323,7 +435,10 @@ def run(ctx: Ctx):
                 "seams, latitudes -78..80 deg, altitudes -0.2..3 km); start instants placed by the spec's Earth-angle "
                 "class: mid-day, crossing a midnight after the first step, crossing it in the last step, around "
                 "day/month/leap-day/year ends printed by Calendar.tla; a case = one (start, step, site); all cases are "
-                "non-trivial (>= 4 real steps each); plus long runs (quick 6 x 6 h, thorough 60 x 8-24 h) across a midnight")
+                "non-trivial (>= 4 real steps each); plus long runs (quick 6 x 6 h, thorough 60 x 8-24 h) across a midnight; "
+                "plus ground agents built as ScenarioBuilder does and stepped directly through the step plans printed by "
+                "GroundSite.tla (first step to 3 h / 2.5 d / 12 d elapsed then steps of 2-10 s, whole-day steps, mixtures), "
+                "every start second, quick: 6-7 of 19 plans per start second rotating, thorough: all 87")
     ctx.assumptions = [
         "eci2ecef / lla2ecef of the implementation are used as the projection to Earth-fixed coordinates (subject of C04)",
         "authoritative epoch of step k is start + k*step by datetime arithmetic",
@@ -335,9 +450,12 @@ def run(ctx: Ctx):
     nproc = max(2, min(10, ctx.cpus - 2))
     pool = mp.get_context("fork").Pool(nproc, initializer=_init_worker)      # forked before any thread exists
     try:
-        with ThreadPoolExecutor(3) as ex:
+        with ThreadPoolExecutor(4) as ex:
             f_site = ex.submit(tlc.run_tlc, "GroundSite", "GroundSite_quick.cfg" if ctx.quick else "GroundSite_thorough.cfg",
                                ctx.sub("site"), workers=max(2, ctx.cpus // 4), timeout=1500)
+            f_plan = ex.submit(tlc.run_tlc, "GroundSite",
+                               "GroundSite_plans_quick.cfg" if ctx.quick else "GroundSite_plans_thorough.cfg",
+                               ctx.sub("plans"), workers=max(2, ctx.cpus // 4), timeout=1500)
             f_cal = ex.submit(cal.run_seconds, "Calendar_c11.cfg", ctx.sub("cal"), max(2, ctx.cpus // 4))
             f_mut = ex.submit(_spec_mutant, ctx.sub("site_mutant"))
             site_res = cal.spec_fail(f_site.result(), "GroundSite.tla")
@@ -351,8 +469,16 @@ def run(ctx: Ctx):
             mids, dn = _midnights(ticks, rng)
             idx = cal.DayIndex(list(dn.items()))
             tasks = _tasks(ctx, site_cfgs, mids, rng)
-            raw = pool.map(_run_sites, tasks, chunksize=2)
-            phase["scenarios_done"] = round(time.time() - t0, 1)
+            sc_async = pool.map_async(_dispatch, tasks, chunksize=2)
+            plan_res = cal.spec_fail(f_plan.result(), "GroundSite.tla (step plans)")
+            ctx.add_tlc(plan_res, "GroundSite.tla with step plans (late small steps, whole-day steps, mixtures)")
+            plan_cfgs = [c for c in plan_res.tagged("SITE") if c["plan"]]
+            if not plan_cfgs:
+                raise tlc.MachineryError("GroundSite.tla emitted no step plan")
+            ptasks = _plan_tasks(ctx, plan_cfgs, mids, len(tasks))
+            praw = pool.map(_dispatch, ptasks, chunksize=1)
+            raw = sc_async.get(timeout=6000)
+            phase["scenarios_and_plans_done"] = round(time.time() - t0, 1)
             killed = f_mut.result()
     finally:
         pool.terminate()
@@ -375,11 +501,26 @@ def run(ctx: Ctx):
             ctx.case((t["start"], t["dt"], tuple(rec["site"])),
                      sample={"start": t["start"], "dt": t["dt"], "site": rec["site"], "boundary": t["boundary"],
                              "crosses_midnight": t["crosses"], "last_step": rec["st"][-1]} if len(items) % 131 == 1 else None)
+    n_plan_traces = 0
+    for t, r in zip(ptasks, praw):
+        if r["crash"]:
+            ctx.violation(f"ground-agent-raised-{r['crash'].split(':')[0]}",
+                          f"ground agents start {t['start']} sites {t['sites']} stepped directly raised {r['crash']}",
+                          {"mode": "agent", "start": t["start"], "plans": t["plans"], "sites": t["sites"], "traceback": r.get("tb")})
+            continue
+        for rec in r["agents"]:
+            items.append((t, rec))
+            n_plan_traces += 1
+            n_steps += len(rec["st"])
+            ctx.case((t["start"], tuple(rec["plan"]), tuple(rec["site"])),
+                     sample={"start": t["start"], "plan": rec["plan"], "site": rec["site"], "last_step": rec["st"][-1]}
+                     if n_plan_traces % 397 == 1 else None)
     if not items:
         raise tlc.MachineryError("no ground-agent trace was produced")
     accepted, rejected, _ = _validate(ctx, items, idx)
     phase["trace_validation"] = round(time.time() - t0, 1)
-    ctx.extra.update(scenarios=len(tasks), ground_agent_traces=len(items), agent_steps_checked=n_steps,
+    ctx.extra.update(scenarios=len(tasks), ground_agent_traces=len(items), directly_stepped_agent_traces=n_plan_traces,
+                     step_plans=len({tuple(p) for t in ptasks for p in t['plans']}), agent_steps_checked=n_steps,
                      traces_rejected=len(rejected), scenarios_with_unexpected_step_count=short, scenarios_crossing_midnight=sum(1 for t in tasks if t["crosses"]),
                      start_seconds_covered=len({t["start"][-2:] for t in tasks}),
                      spec_mutants_killed={"GroundSite.InvertStartBySecTruncation": killed}, phase_done_at_s=phase)
@@ -394,14 +535,19 @@ def replay(ctx: Ctx, rp: dict):
     cal_res, ticks = cal.run_seconds("Calendar_c11.cfg", ctx.sub("cal"), max(2, ctx.cpus // 4))
     ctx.add_tlc(cal_res, "Calendar.tla midnights")
     idx = cal.DayIndex([((tk["to"][0], tk["to"][1], tk["to"][2]), tk["dn"]) for tk in ticks])
-    t = {"id": 0, "start": rep["start"], "dt": rep["dt"], "steps": rep["steps"], "sites": [tuple(s) for s in rep["sites"]]}
-    r = _run_sites(t)
+    if rep.get("mode") == "agent":
+        t = {"id": 0, "start": rep["start"], "sites": [tuple(s) for s in rep["sites"]],
+             "plans": [rep["plan"]] if rep.get("plan") else rep["plans"]}
+        r = _run_plans(t)
+    else:
+        t = {"id": 0, "start": rep["start"], "dt": rep["dt"], "steps": rep["steps"], "sites": [tuple(s) for s in rep["sites"]]}
+        r = _run_sites(t)
     if r["crash"]:
         ctx.violation(f"ground-scenario-raised-{r['crash'].split(':')[0]}", r["crash"], rep)
         return None
     items = [(t, rec) for rec in r["agents"]]
     for _t, rec in items:
-        ctx.case((t["start"], t["dt"], tuple(rec["site"])))
+        ctx.case((t["start"], t.get("dt"), tuple(rec.get("plan", ())), tuple(rec["site"])))
     ctx.case(("replay", t["start"]))
     _validate(ctx, items, idx)
     return None
